@@ -85,6 +85,7 @@ def histories(out: Outcome, rng, n_cases: int, thorough: bool):
         ops = []
         kept = []
         ref, accepted = None, []
+        since_fit = 0
         n_ops = rng.randint(w + 2, 3 * w + 12)
         for _ in range(n_ops):
             r = rng.random()
@@ -108,6 +109,7 @@ def histories(out: Outcome, rng, n_cases: int, thorough: bool):
                     out.violation("IncrementalKSTest.fit modified the caller's reference array in place", rep)
                     break
                 ops.append(["fit", n if n > 64 else ref])
+                since_fit = 0
                 lines.append("x kf " + " ".join(f2h(x) for x in ref))
                 expect.append(None)
             elif op == "reset":
@@ -134,14 +136,22 @@ def histories(out: Outcome, rng, n_cases: int, thorough: bool):
                     out.violation("IncrementalKSTest.update on an unfitted detector did not raise MissingFitError", rep)
                     break
                 accepted.append(v)
+                since_fit += 1
                 if len(accepted) < w:
                     expect.append(("-", rep))
                     if res is not None:
                         out.violation(f"IncrementalKSTest returned a result after {len(accepted)} < window_size={w} accepted values", rep)
                         break
                     continue
+                if res is None and since_fit < w:
+                    # a second fit() on a running detector: whether the window keeps sliding (the current code, the model) or starts again with the new reference is not
+                    # fixed by the property ("returns nothing until window_size values have arrived") - a detector that restarts differs from the model, no more
+                    out.mismatch(f"IncrementalKSTest returned nothing {since_fit} < window_size={w} values after a second fit(): it restarts its window at fit(), the model keeps it sliding", rep)
+                    expect.append(None)
+                    break
                 if res is None:
                     out.violation(f"IncrementalKSTest returned nothing after {len(accepted)} >= window_size={w} accepted values", rep)
+                    expect.append(None)
                     break
                 bat = KSTest()
                 bat.fit(X=np.array(ref))
